@@ -35,6 +35,7 @@ EXPLANATION = (
   " (ITEM-source) an object built once per item of an inner loop is filled only with values that derive from that item or do not vary with the loops, never with a value of the enclosing container standing where the item's own belongs;"
   ' (LOOP-break) no loop over the items of a collection is left by a branch that does nothing but `break` on a test about the item (end-of-input sentinels, flags set in the loop body and searches whose variable is read afterwards excepted): an item that is to be skipped does not end the processing of the items after it;'
   ' (FIN-regex) the WebVTT timestamp, percentage and line-number patterns accept / reject the probe values written from the WebVTT syntax (a line number 0 or -0 is a number);'
+  + common.SHARED_CLAUSES['text']
 )
 RULE_TEXT = "per call site / function / enum / printed sample"
 UNDECIDED = ["cue-setting geometry (line numbers <= 0, position with size)", "tag scoping", "region sharing for equal settings"]
@@ -444,6 +445,7 @@ def check_level_owners(ctx):
 
 
 def run(ctx):
+  common.check_shared_helpers(ctx, text=True)
   ix = ctx.ix
   nul.IMPLICATIONS.clear()
   RUBY_INV_OK[0] = bool(check_ruby_invariant(ctx))
